@@ -229,6 +229,9 @@ func (g *gen) genStatement(typ types.Type, this, that string) error {
 		}
 		external := g.TypesMap.IsExternal(named)
 		fields := derive.Fields(g.TypesMap, strct, external)
+		if f := fields.Unwritable; f != nil {
+			return fmt.Errorf("unsupported field %s of %s: its type %s cannot be written outside of its package", f.DebugName(), g.TypeString(typ), f.Type)
+		}
 		if fields.Reflect {
 			p.P(`thisv := ` + g.reflectPkg() + `.Indirect(` + g.reflectPkg() + `.ValueOf(` + this + `))`)
 			p.P(`thatv := ` + g.reflectPkg() + `.Indirect(` + g.reflectPkg() + `.ValueOf(` + that + `))`)
